@@ -6,7 +6,8 @@ import GramModel.Oracle
 `Oracle.lean` is an *algorithm* (fuel, a weak-head strategy, a syntactic shortcut).  This file states
 the rules themselves as inductive relations, with no fuel and no strategy: one-step head reduction
 `Red1`, convertibility `Conv` (the least equivalence and congruence containing `Red1`, where names
-and parameter annotations of functions are irrelevant), and the typing judgement `HasType` (a pure
+and parameter annotations of functions are irrelevant; groups are congruent componentwise, with
+their variables opaque), and the typing judgement `HasType` (a pure
 type system with `type : type`, dependent functions, mutually recursive definition groups, integers,
 booleans, a conversion rule).  `Lemmas/TypingSound.lean` proves that the algorithm is sound for these
 rules on hole-free terms.
@@ -34,10 +35,11 @@ inductive Red1 (Δ : DCtxX) : Tm → Tm → Prop
   | iteTrue (a b : Tm) : Red1 Δ (.ite .tt a b) a
   | iteFalse (a b : Tm) : Red1 Δ (.ite .ff a b) b
 
+mutual
 /-- Convertibility (definitional equality): the least equivalence relation that contains head
 reduction, identifies terms that differ only in names and parameter annotations (`sameX`), and is a
-congruence for every constructor that the checker compares structurally.  Going under a binder adds a
-parameter (`none`) to the definitions context. -/
+congruence for every constructor.  Going under a binder adds a parameter (`none`) to the definitions
+context. -/
 inductive Conv : DCtxX → Tm → Tm → Prop
   | refl (Δ : DCtxX) (a : Tm) : Conv Δ a a
   | symm {Δ : DCtxX} {a b : Tm} : Conv Δ a b → Conv Δ b a
@@ -54,6 +56,23 @@ inductive Conv : DCtxX → Tm → Tm → Prop
       Conv Δ a1 a2 → Conv Δ b1 b2 → Conv Δ (.bin op a1 b1) (.bin op a2 b2)
   | ite {Δ : DCtxX} {c1 c2 a1 a2 b1 b2 : Tm} :
       Conv Δ c1 c2 → Conv Δ a1 a2 → Conv Δ b1 b2 → Conv Δ (.ite c1 a1 b1) (.ite c2 a2 b2)
+  /-- Groups are compared componentwise.  In the premises the variables of the group are *opaque*
+  parameters (`none` entries), not definitions: the definitions of a group may be recursive, and two
+  recursive definitions whose bodies agree only *after* unfolding one of them need not define the
+  same function (`f = n => 0` and `f = n => f n` agree under `f := n => 0`), so making the left (or
+  the right) group transparent here would be unsound; with opaque variables the two bodies are equal
+  as functionals of the group variables, hence so are the groups. -/
+  | letg {Δ : DCtxX} {ds1 ds2 : Defs} {b1 b2 : Tm} :
+      ConvDefs (List.replicate ds1.len none ++ Δ) ds1 ds2 →
+      Conv (List.replicate ds1.len none ++ Δ) b1 b2 → Conv Δ (.letg ds1 b1) (.letg ds2 b2)
+/-- pairwise convertibility of the annotations and of the definitions of two groups of the same
+length (names are irrelevant) -/
+inductive ConvDefs : DCtxX → Defs → Defs → Prop
+  | nil (Δ : DCtxX) : ConvDefs Δ .nil .nil
+  | cons {Δ : DCtxX} (x y : Name) {a1 a2 d1 d2 : Tm} {r1 r2 : Defs} :
+      Conv Δ a1 a2 → Conv Δ d1 d2 → ConvDefs Δ r1 r2 →
+      ConvDefs Δ (.cons x a1 d1 r1) (.cons y a2 d2 r2)
+end
 
 /-- result type of a binary operator -/
 def binResult : BinOp → Tm
